@@ -54,6 +54,9 @@ impl DetectProp for C07 {
                 c.sett.incl.clear();
                 c.sett.excl.clear();
             }
+        } else if idx % 10 == 3 || idx % 10 == 7 {
+            // the payload starts with one encoding's mark, declares another one, and nothing passes: fallback on the declared page
+            c = marked_declared_fallback_case(rng);
         } else if idx % 10 == 1 {
             // UTF-16 text without BOM
             let (_, t) = *rng.pick(TEXTS);
